@@ -1359,6 +1359,8 @@ func TestVerifC14(t *testing.T) {
 		Scenario: c14Scenario,
 		EnumN:    func(tier string) int { return len(c14Sweeps) / 2 }, // the cases without leading-zero networks; the other half is reached by the random part (mode 2)
 		EnumAt:   func(tier string, i int) []int { return []int{2, i} },
+		EnumLabels:    func(string, int) []string { return []string{"mode", "sweep-case"} },
+		ExhaustLabels: func(string, int) []string { return []string{"mode", "small-scenario"} },
 		ExhaustRoots: func(tier string) [][]int {
 			var roots [][]int
 			for i := range c14Small {
